@@ -129,8 +129,8 @@ def securitySpecLine (v : View) : String :=
   | .file =>
     match v.dataDir 4 with
     | some (va, size) =>
-      if Spec.CertWellFormed v.b.size va size then
-        s!"spec=type={Spec.certType v.b va},data={ref (Spec.certBytes va size)} hyp=1"
+      if Spec.CertWellFormed v.b.size va size ∧ Spec.SingleCert v.b va size then
+        s!"spec=type={Spec.certType v.b va},data={ref (Spec.certBytes v.b va)} hyp=1"
       else "hyp=0"
     | none => "hyp=0"
 
